@@ -11,6 +11,10 @@ def call(mod, pb):
     return mod.solve_yinyang(pb["h"], pb["w"], pb["grid"])
 
 
+def ncand(pb):
+    return 2 ** (pb['h'] * pb['w'])
+
+
 def encode(pb):
     return [[pb["h"], pb["w"]], L.flat(pb["grid"])]
 
